@@ -576,9 +576,11 @@ def _calculate_transitions_matrix(events: pd.DataFrame, n_sites: int) -> np.ndar
         Square matrix with number of each transitions
     """
     transitions = np.zeros((n_sites, n_sites), dtype=int)
-    idx, counts = np.unique(
-        events[['start site', 'destination site']], return_counts=True, axis=0
-    )
+    site_pairs = events[['start site', 'destination site']].to_numpy()
+    # Events to or from NOSITE are not transitions between two sites; as negative
+    # indices they would otherwise be counted for the last site.
+    site_pairs = site_pairs[(site_pairs != NOSITE).all(axis=1)]
+    idx, counts = np.unique(site_pairs, return_counts=True, axis=0)
     start_idx, stop_idx = idx.T
     transitions[start_idx, stop_idx] = counts
     return transitions
